@@ -134,6 +134,19 @@ def gen_C09(g, tier):
         if any(q is w for w in weak): tag = 'double-weakly-polarised'
         cs.append(Case('qd.sqrt %s' % hexes(q), 'cmp', tag))
         cs.append(Case('o.c09.sqrtd %s' % hexes(q), 'orc', tag, check=flags_then_small(2, 1e-12)))
+    # single and extended precision: inputs that are exactly PSD as floats (and hence as long doubles), singular ones included
+    import struct
+    def f32(x):
+        try: return struct.unpack('<f', struct.pack('<f', x))[0]
+        except OverflowError: return math.inf
+    cnt = 0
+    for q in dq:
+        qf = [f32(x) for x in q]
+        if not all(math.isfinite(x) for x in qf) or not (1e-15 < abs(qf[0]) < 1e15): continue
+        if F(qf[0]) < 0 or F(qf[0]) ** 2 < F(qf[1]) ** 2 + F(qf[2]) ** 2 + F(qf[3]) ** 2: continue
+        cs.append(Case('o.c09.sqrtf %s' % hexes(qf), 'orc', 'float-and-longdouble-psd', check=flags_then_small(2, 1e-12)))
+        cnt += 1
+        if cnt >= (60 if tier == 'quick' else 2000): break
     # double: polar decomposition over structure classes and condition numbers
     for _ in range(n):
         kind = g.choice(['random', 'hermitian', 'unitary', 'diagonal', 'triangular', 'negdet', 'imagdet', 'illcond', 'nearunitary'])
@@ -275,6 +288,7 @@ def gen_C10(g, tier):
                             for j in range(i + 1, size):
                                 cvals += [up[(i, j)] * scale, (0.0 if cls in ('integer', 'repeated', 'rank1', 'zero') or up[(i, j)] == 0.0 else g.r.uniform(-1, 1) * abs(up[(i, j)])) * scale]
                         cs.append(Case('o.c10.cjacobi %d %s%s' % (size, hexes(cvals), note), 'orc', 'jacobi-complex-' + cls, check=flags_then_small(1, 1e-8)))
+                        cs.append(Case('jac.complex %d %s' % (size, hexes(cvals)), 'cmp', 'jacobi-solver-complex-' + cls))
     return cs
 
 
@@ -289,12 +303,12 @@ C10 = dict(
     rule='exact: Hermitian quaternions with integer polarisation vectors for which every root is rational (incl. scalar part 0, '
          'degenerate and axis-aligned inputs); double: quaternions (random, degenerate, axis, near-axis, 1e-140), the 2x2 '
          'rotation-parameter routines (real and complex) compared bit for bit with the model at Float; the n x n solver for '
-         'n=2..8 over eleven structure classes x scales 2^-500..2^500: the real symmetric solver (all sweeps, thresholds, rotations, '
-         'eigenvalue bookkeeping) compared bit for bit with the model at Float (eigenvalues and eigenvector matrix), and real and '
-         'complex solvers through the residual oracle (finite, E A E^T = diag, E E^T = 1 within 1e-12 / 1e-8 of ||A||)',
+         'n=2..8 over eleven structure classes x scales 2^-500..2^500: the real symmetric and the complex Hermitian solver (all sweeps, thresholds, '
+         'rotations, eigenvalue bookkeeping) compared bit for bit with the model at Float (eigenvalues and eigenvector matrix), and both '
+         'solvers through the residual oracle (finite, E A E^T = diag, E E^T = 1 within 1e-12 / 1e-8 of ||A||)',
     trusted=['GMP exact rationals', 'glibc sqrt'],
-    assumptions=['convergence of the sweep and the numeric tolerances are explored, not proved; the complex n x n sweep is not modelled'],
-    partial='convergence of the real solver within 50 sweeps and its accuracy 1e-12 in floating point (the theorems are exact-arithmetic invariants and the eigen-decomposition at the sum == 0 exit); the complex Hermitian solver beyond a single rotation, its accuracy 1e-8 and the scale independence of its thresholds',
+    assumptions=['convergence of the sweep and the numeric tolerances are explored, not proved; the complex solver is modelled and compared, its invariants are not proved'],
+    partial='convergence of the real solver within 50 sweeps and its accuracy 1e-12 in floating point (the theorems are exact-arithmetic invariants and the eigen-decomposition at the sum == 0 exit); for the complex Hermitian solver the model is tied bit for bit but carries no theorem beyond the single rotation; its accuracy 1e-8 and the scale independence of its thresholds (known finding)',
 )
 
 SPECS = {'C09': C09, 'C10': C10}
